@@ -1201,6 +1201,38 @@ def run_ds(ctx, idx):
                 ctx.mark_nontrivial([desc, hashlib.sha1(x.tobytes() + d.tobytes()).hexdigest()])
     ctx.check("ds_route", not problems, lambda: dict(desc, problems=problems),
               message="; ".join(problems))
+    # ---- second read on the same dataset after *only* the selected look-up table changed:
+    # a new computation with the new table must be observed (no value of the old one)
+    if exc is None and lut_arg in ("LE-2D-FEM-19", "HE-2D-FEM-22", "HE-3D-FEM-22"):
+        new_lut = str(rng.choice([b for b in ("LE-2D-FEM-19", "HE-2D-FEM-22", "HE-3D-FEM-22")
+                                  if b != lut_arg]))
+        calc["emodulus lut"] = new_lut
+        _State.log = []
+        try:
+            try:
+                val2 = np.array(ds["emodulus"], copy=True)
+                exc2 = None
+            except Exception as e:
+                val2, exc2 = None, e
+            log2 = _State.log
+        finally:
+            _State.log = None
+        problems2 = []
+        if exc2 is not None:
+            problems2.append(f"reading ds['emodulus'] after the LUT change raised {exc2!r}")
+        elif len(log2) != 1:
+            problems2.append(f"{len(log2)} observed get_emodulus calls after the LUT changed "
+                             f"from {lut_arg} to {new_lut} (a cached value of the old table?)")
+        else:
+            if log2[0]["args"]["lut_data"] != new_lut:
+                problems2.append(f"computed with {log2[0]['args']['lut_data']!r}, the "
+                                 f"configuration says {new_lut!r}")
+            if val2 is not None and not _same(np.asarray(log2[0]["result"]), val2):
+                problems2.append("ds['emodulus'] differs from the observed return value")
+        ctx.check("ds_route", not problems2,
+                  lambda: dict(desc, lut_change=[lut_arg, new_lut], problems=problems2),
+                  message="; ".join(problems2))
+        ctx.count(f"ds_lut_changes[{scenario}]")
 
 
 def run_rewrite(ctx, idx):
